@@ -62,8 +62,10 @@ class Contract:
     def __init__(self, key, prop, types=None, returns=None, requires=(), ensures=(), ensures_exc=(),
                  raises=None, modifies=(), effects=(), loops=None, locals=None, inline=False, funcs=None,
                  ghost=None, mode="prove", unroll=None, comps=None, name=None, setup=(), max_paths=None,
-                 frame=None, lock=None, replay=None, timeout_ms=None, axioms=(), post_setup=(), pure_result=None, asserts=None, nonlinear=False):
+                 frame=None, lock=None, replay=None, timeout_ms=None, axioms=(), post_setup=(), pure_result=None, asserts=None, nonlinear=False,
+                 strict_comps=False):
         self.key = key
+        self.strict_comps = strict_comps   # execute comprehension bodies once in exec mode: their exceptions count
         self.prop = prop if isinstance(prop, (list, tuple)) else [prop]
         self.short = name or key.split(":", 1)[1]
         self.types = dict(types or {})
@@ -358,7 +360,44 @@ class Verifier:
         t = xs.t
         f = z3.Function("str_join_" + "".join(c if c.isalnum() else "_" for c in t.name),
                         z3.StringSort(), t.sort(), z3.StringSort())
+        if t == TList(TStr):
+            self.split_join_axioms(I)
         return f(sep.e, unwrap(xs, t))
+
+    def split_join_axioms(self, I):
+        """Trusted facts about whitespace tokenisation (str.split() without separator) and str.join, added once
+        per path the first time either is used.  `str_is_token(x)` is an uninterpreted predicate read as
+        "x is non-empty and contains no whitespace character (str.isspace)".
+          T1  every element of s.split() is a token
+          T2  for a list xs (len >= 0) of tokens:  " ".join(xs).split() == xs   (same length, same elements)
+          T3  sep.join([]) == ""
+          T4  a token is a non-empty string
+        (T2 with xs == [] and T3 give "".split() == [].)  Everything else about split/join stays uninterpreted."""
+        if getattr(I.path, "_sj_axiom", False):
+            return
+        I.path._sj_axiom = True
+        t = TList(TStr)
+        split = z3.Function("str_split_ws", z3.StringSort(), t.sort())
+        join = z3.Function("str_join_" + "".join(c if c.isalnum() else "_" for c in t.name),
+                           z3.StringSort(), t.sort(), z3.StringSort())
+        tok = z3.Function("str_is_token", z3.StringSort(), z3.BoolSort())
+        s, sep = z3.Strings("sj_s sj_sep")
+        xs = z3.Const("sj_xs", t.sort())
+        i, j = z3.Ints("sj_i sj_j")
+        arr, n = t.dt.arr, t.dt.n
+        sp = z3.StringVal(" ")
+        el = z3.Select(arr(split(s)), i)
+        I.path.assume(z3.ForAll([s, i], z3.Implies(z3.And(0 <= i, i < n(split(s))), tok(el)), patterns=[el]))
+        back = split(join(sp, xs))
+        all_tok = z3.ForAll([i], z3.Implies(z3.And(0 <= i, i < n(xs)), tok(z3.Select(arr(xs), i))))
+        same = z3.ForAll([j], z3.Implies(z3.And(0 <= j, j < n(xs)), z3.Select(arr(back), j) == z3.Select(arr(xs), j)),
+                         patterns=[z3.Select(arr(back), j)])
+        I.path.assume(z3.ForAll([xs], z3.Implies(z3.And(n(xs) >= 0, all_tok), z3.And(n(back) == n(xs), same)),
+                                patterns=[join(sp, xs)]))
+        I.path.assume(z3.ForAll([sep, xs], z3.Implies(n(xs) == 0, join(sep, xs) == z3.StringVal("")), patterns=[join(sep, xs)]))
+        I.path.assume(z3.ForAll([s], z3.Implies(tok(s), z3.Length(s) > 0), patterns=[tok(s)]))
+        self.note_assumption("str.split()/' '.join: uninterpreted except (T1) elements of s.split() are tokens, (T2) ' '.join(xs).split() == xs "
+                             "for a list of tokens, (T3) sep.join([]) == '', (T4) tokens are non-empty")
 
     def split_term(self, I, s, args, kw):
         t = TList(TStr)
@@ -368,6 +407,7 @@ class Verifier:
         else:
             f = z3.Function("str_split_ws", z3.StringSort(), t.sort())
             r = t.wrap(f(s.e))
+            self.split_join_axioms(I)
         I.path.assume(r.n >= 0)
         if args:
             I.path.assume(r.n >= 1)
@@ -475,6 +515,9 @@ class Verifier:
             return VFunc("ast", name, node=node, module=m)
         if name in self.reg.consts:
             return mk_const(self.reg.consts[name])
+        from . import dyn as D
+        if name in D.SPEC_FUNCS:
+            return VFunc("builtin", name, impl=D.SPEC_FUNCS[name])
         return None
 
     def class_value(self, ci):
